@@ -840,7 +840,6 @@ class ELF(object):
 
     def build_content(self):
         c = StrPatchwork()
-        c[0] = bytes(self.Ehdr)
         # Table entries are e_phentsize / e_shentsize bytes apart
         for i, p in enumerate(self.ph.phlist):
             c[self.Ehdr.phoff + i * self.Ehdr.phentsize] = bytes(p.ph)
@@ -848,6 +847,8 @@ class ELF(object):
             c[s.sh.offset] = bytes(s.content)
         for i, s in enumerate(self.sh.shlist):
             c[self.Ehdr.shoff + i * self.Ehdr.shentsize] = bytes(s.sh)
+        # The ELF header is written last: nothing may overwrite it
+        c[0] = bytes(self.Ehdr)
         return bytes(c)
 
     def __bytes__(self):
